@@ -57,6 +57,7 @@ BEHAVIOURS = {
     "syspath-pop0": "sys.path.pop(0)\n",
     "syspath-reset": "sys.path[:] = [p for p in sys.path if not p.startswith(os.path.dirname(os.path.abspath(__file__)))]\n",
     "spawn-uncaught": "import subprocess\nsubprocess.check_output(['true'])\n",
+    "spawn-then-write-link": "import subprocess\nsubprocess.check_output(['true'])\ntry:\n    open(os.path.join('pkglink', 'stamp.txt'), 'w').write('x')\nexcept Exception:\n    pass\n",
     "thread": "import threading\n_t = threading.Thread(target=lambda: None)\n_t.start()\n_t.join()\n",
 }
 EXITS = ["sys.exit(0)", "sys.exit(3)", "os._exit(1)", "raise RuntimeError('boom')", "raise SystemExit(2)",
@@ -198,7 +199,8 @@ def _pyproject(spec):
     def arr(xs):
         return "[" + ", ".join('"%s"' % x.replace('"', '\\"') for x in xs) + "]"
     L = ["[build-system]", 'requires = ["setuptools"]', 'build-backend = "setuptools.build_meta"', "", "[project]",
-         'name = "%s"' % spec["name"], 'version = "%s"' % spec["version"], "dependencies = %s" % arr(spec["requires"])]
+         'name = "%s"' % spec["name"], 'version = "%s"' % spec["version"],
+         "dependencies = %s" % arr(spec["requires"] + (["this is ;;; not a requirement"] if spec.get("broken_backend") else []))]
     if spec["extras"]:
         L += ["", "[project.optional-dependencies]"]
         for e, rs in spec["extras"].items():
@@ -246,6 +248,9 @@ def materialise(spec, root, packaging):
             os.makedirs(os.path.dirname(full), exist_ok=True)
             with io.open(full, "w", encoding="utf-8", newline="\n") as fh:
                 fh.write(text)
+        if spec.get("abs_symlink"):
+            # a link with an absolute target into the project itself (as `ln -s $PWD/sub pkglink` leaves it)
+            os.symlink(os.path.join(base, "sub"), os.path.join(base, "pkglink"))
         return base
     if packaging == "tar.gz":
         path = os.path.join(root, top + ".tar.gz")
